@@ -100,3 +100,25 @@ func VH_C11_Aux(p []int) {
 	}
 	verifReach("end")
 }
+
+// The path handed to Traverse is the caller's: it is read, never written
+// (relative indices included), so one path can serve many calls and callers.
+// p: variant
+func VH_C11_TraversePath(p []int) {
+	s, cfg := vhRich(p[0], vhOptMask)
+	cfg.opt |= negidx | fwdidx
+	if ic, _ := vhStackOf((*s.stack)[1]); ic.stack != nil {
+		if icfg, _ := ic.config(); icfg != nil {
+			icfg.opt |= negidx | fwdidx
+		}
+	}
+	a, b := nondetInt(), nondetInt()
+	path := []int{a, b}
+	verifFreeze(s)
+	r1, ok1 := s.Traverse(path...)
+	verifThaw()
+	verifAssert(path[0] == a && path[1] == b, "path-unchanged")
+	r2, ok2 := s.Traverse(path...)
+	verifAssert(ok1 == ok2 && vhResultSame(r1, r2), "same-path-same-answer")
+	verifReach("end")
+}
